@@ -435,10 +435,13 @@ def make_report(drv, inj):
     if drv == "tridonic":
         mode = MODE_RESPONSE if inj.get("as_own") else MODE_OBSERVE
         seq = inj.get("seq", 0)
+        # the report's "interval" field (time since the previous frame, in the gateway's own unit) is whatever the
+        # gateway measured: any 16-bit value; what a report denotes does not depend on it
+        iv = inj.get("interval", (int(inj.get("value", 0)) * 7919 + 0x0141) & 0xFFFF)
         if k == "forward":
-            return tri_report(mode, R_DALI24 if inj["bits"] == 24 else R_DALI16, inj["value"], seq)
+            return tri_report(mode, R_DALI24 if inj["bits"] == 24 else R_DALI16, inj["value"], seq, iv)
         if k in ("backward", "stale-answer"):
-            return tri_report(mode if k == "backward" else MODE_RESPONSE, R_DALI8, inj["value"], seq)
+            return tri_report(mode if k == "backward" else MODE_RESPONSE, R_DALI8, inj["value"], seq, iv)
         if k == "error":
             return tri_report(mode, R_INFO, BUS_FRAMING_ERROR, seq)
         if k == "noframe":
